@@ -635,6 +635,11 @@ def idiom(rng, d):
         kids = head + [mo(o), mo(MATCH[o]), mo(rng.choice(common)), v()]
         if rng.random() < 0.4:
             kids += [mo(rng.choice(common)), f(), mo("("), mo(")")] + ([mo(rng.choice(common)), v()] if rng.random() < 0.5 else [])
+        if rng.random() < 0.3:
+            # ... inside an outer pair: ( f ( ) ), y = [ g ( ) + 1 ]
+            o2 = rng.choice(list(MATCH))
+            inner = head + [mo(o), mo(MATCH[o])] + ([mo(rng.choice(common)), v()] if rng.random() < 0.5 else [])
+            kids = ([v(), mo("=")] if rng.random() < 0.4 else []) + [mo(o2)] + inner + [mo(MATCH[o2])]
         return kids, "empty-fences"
     o1, o2 = rng.sample(list(MATCH), 2)
     return [mo(o1), v(), mo(rng.choice(common)), mo(o2), v(), mo(rng.choice(common)), v(), mo(MATCH[o2]), mo(MATCH[o1]), mo(rng.choice(common)), v()], "nested-fences"
@@ -661,6 +666,21 @@ def fence_problems(root):
                 if i != 0 or mml.local(last.tag) != "mo" or (last.text or "") != MATCH[t]:
                     out.append(("unmatched-fence", "open fence %s is child %d of %d in a row that ends with %r" % (t, i + 1, len(kids), (last.text or mml.local(last.tag)))))
     return out
+
+
+def kids_balanced(kids):
+    """the fences of an idiom row are balanced (the shrinker must not turn a row into one whose fences cannot match)"""
+    stack = []
+    for k in kids:
+        t = k.text or ""
+        if k.tag != "mo":
+            continue
+        if t in MATCH:
+            stack.append(MATCH[t])
+        elif t in MATCH.values():
+            if not stack or stack.pop() != t:
+                return False
+    return not stack
 
 
 def judge_idiom(sess, kids, d):
@@ -699,7 +719,7 @@ def idiom_shard(spec):
             if (kind, what) in seen:
                 continue
             seen.add((kind, what))
-            small = shrink.shrink_list(kids, lambda ks: len(ks) >= 2 and judge_idiom(sess, ks, d)[0] == kind, budget=80)
+            small = shrink.shrink_list(kids, lambda ks: len(ks) >= 2 and kids_balanced(ks) and judge_idiom(sess, ks, d)[0] == kind, budget=80)
             sig = "%s | idiom:%s | %s" % (kind, what, " ".join("v" if k.tag == "mi" and len(k.text) == 1 else "n" if k.tag == "mn" else (k.text or "") for k in small))
             st.violations.append(core.violation(kind, sig, {"idiom": [[k.tag, k.text] for k in small]}, "minimal row: %s | %s" % (" ".join(k.text or "" for k in small), judge_idiom(sess, small, d)[1])))
     return st.to_dict()
